@@ -119,7 +119,7 @@ func verifC10NativeRaces() {
 	verifReach("race-analysis-done")
 }
 
-func verifC20NativeSchedule(fail bool) {
+func verifC20NativeSchedule(fail, single bool) {
 	tmp, err := os.MkdirTemp("", "verif-c20s-")
 	if err != nil {
 		panic(err)
@@ -145,6 +145,8 @@ func verifC20NativeSchedule(fail bool) {
 	pyscript := "#!/bin/sh\ncat >/dev/null\nm=" + state + "/alive.$$\n: > $m\nls " + state + " | grep -c '^alive' >> " + state + "/counts\nsleep 0.3\nrm -f $m\necho x >> " + state + "/finished\n"
 	must(os.WriteFile(pytool, []byte(pyscript), 0o755))
 	cpus := runtime.NumCPU()
+	// the bound is the number of CPUs, whatever GOMAXPROCS is set to
+	defer runtime.GOMAXPROCS(runtime.GOMAXPROCS(2 * cpus))
 	var args []string
 	for f := 0; f < 3; f++ {
 		p := filepath.Join(tmp, "r", ".github", "workflows", "w"+strconv.Itoa(f)+".yml")
@@ -158,7 +160,17 @@ func verifC20NativeSchedule(fail bool) {
 		err  error
 	}
 	ch := make(chan res, 1)
+	nfiles := 3
+	if single {
+		nfiles = 1
+	}
 	go func() {
+		if single {
+			src, _ := os.ReadFile(args[0])
+			errs, err := l.Lint(args[0], src, nil)
+			ch <- res{errs, err}
+			return
+		}
 		errs, err := l.LintFiles(args, nil)
 		ch <- res{errs, err}
 	}()
@@ -188,7 +200,7 @@ func verifC20NativeSchedule(fail bool) {
 		// some scripts may never have been started; none may be alive
 		verifCheck(alive == 0, "results-returned-before-every-tool-goroutine-finished")
 	} else {
-		verifCheck(alive == 0 && strings.Count(string(fin), "x") == 3*cpus, "results-returned-before-every-tool-goroutine-finished")
+		verifCheck(alive == 0 && strings.Count(string(fin), "x") == nfiles*cpus, "results-returned-before-every-tool-goroutine-finished")
 	}
 	cnt, _ := os.ReadFile(filepath.Join(state, "counts"))
 	max := 0
@@ -198,4 +210,32 @@ func verifC20NativeSchedule(fail bool) {
 		}
 	}
 	verifCheckf(max <= cpus, "more-tool-processes-at-once-than-cpus", strconv.Itoa(max))
+}
+
+// verifC20RunKeyNative: the same through real stand-in tools.
+func verifC20RunKeyNative() {
+	py := verifChoose("python", 2) == 1
+	src, runLine := verifC20RunKeySource(verifChoose("order", 3), py)
+	stdout := "[{\"file\":\"-\",\"line\":1,\"column\":1,\"level\":\"warning\",\"code\":2000,\"message\":\"m\"}]"
+	if py {
+		stdout = "<stdin>:1:1 msg\n"
+	}
+	cmd, done := verifC20NativeTool(stdout, 0)
+	var rule Rule
+	if py {
+		rule = newRulePyflakes(cmd)
+	} else {
+		rule = newRuleShellcheck(cmd)
+	}
+	verifLintNode(verifParseYAML(src), []Rule{rule})
+	err := cmd.wait()
+	cmd.proc.wait()
+	calls, _ := done()
+	verifCheck(calls == 1, "script-not-passed-to-the-tool-exactly-once")
+	verifReach("callback")
+	verifCheck(err == nil, "valid-tool-output-turned-into-fatal-error")
+	verifCheck(len(rule.Errs()) == 1, "issue-count-differs-from-diagnostic-count")
+	for _, d := range rule.Errs() {
+		verifCheck(d.Line == runLine && d.Column == 9, "diagnostic-not-at-run-key")
+	}
 }
